@@ -2697,7 +2697,8 @@ loop 1:
                 self.ctx_same(old(self)), self.q() == old(self).q(), r0 == old(self).rem(), toks_ok(r0),
                 0 <= n, 0 <= k, k + n <= r0.len(),
                 self.blk() == r0.subrange(k, k + n),      // [C03] [C05] the entry's tokens, `>>` included, are stored (the block parser needs a non-empty block)
-            ensures self.wf(), n > 0, exists|m: int| 0 <= m <= r0.len() && self.rem() == #[trigger] r0.skip(m),
+            ensures self.wf(), exists|m: int| 0 <= m <= r0.len() && self.rem() == #[trigger] r0.skip(m),
+                n > 0,     // [C03] the entry holds at least its `>>` token: the block parser is never created over an empty block
             decreases self.fuel()
 loopbody 1:
             let ghost j = n;
